@@ -24,11 +24,46 @@ Inductive res :=
 
 Definition len_N (s : str) : N := N.of_nat (length s).
 
+(* the three iteration schemes, with the recursive call passed in *)
+Definition seq_loop (step : expr -> str -> N -> res) (off : N) (labels : list (str * nat)) :=
+  fix seq (es : list expr) (s1 : str) (off1 : N) (acc : list tree) : res :=
+    match es with
+    | [] => Ok s1 off1 (Node off (off1 - off) [] labels (rev acc))
+    | e1 :: r =>
+        match step e1 s1 off1 with
+        | Ok s2 off2 t => seq r s2 off2 (t :: acc)
+        | Fail => Fail
+        | OutOfFuel => OutOfFuel
+        end
+    end.
+
+Definition alt_loop (step : expr -> res) :=
+  fix alt (es : list expr) : res :=
+    match es with
+    | [] => Fail
+    | e1 :: r => match step e1 with Fail => alt r | x => x end
+    end.
+
+(* e* / e+ : iterate until e fails; an iteration that consumes nothing would loop forever in
+   canopy, here the iteration budget k (input length + 1) runs out *)
+Definition rep_loop (step : str -> N -> res) (off : N) (min : nat) :=
+  fix loop (k : nat) (s1 : str) (off1 : N) (acc : list tree) : res :=
+    match k with
+    | O => OutOfFuel
+    | S k' =>
+        match step s1 off1 with
+        | Ok s2 off2 t => loop k' s2 off2 (t :: acc)
+        | Fail =>
+            if Nat.leb min (length acc)
+            then Ok s1 off1 (Node off (off1 - off) [] [] (rev acc))
+            else Fail
+        | OutOfFuel => OutOfFuel
+        end
+    end.
+
 Section Run.
   Variable g : grammar.
 
-  (* the three list cases are folded over with the recursive call passed in, so that the
-     interpreter is one structural recursion on fuel *)
   Fixpoint run (fuel : nat) (e : expr) (s : str) (off : N) {struct fuel} : res :=
     match fuel with
     | O => OutOfFuel
@@ -49,34 +84,15 @@ Section Run.
             | Some body => run f body s off
             | None => Fail
             end
-        | Seq es labels =>
-            (fix seq (es : list expr) (s1 : str) (off1 : N) (acc : list tree) : res :=
-               match es with
-               | [] => Ok s1 off1 (Node off (off1 - off) [] labels (rev acc))
-               | e1 :: r =>
-                   match run f e1 s1 off1 with
-                   | Ok s2 off2 t => seq r s2 off2 (t :: acc)
-                   | Fail => Fail
-                   | OutOfFuel => OutOfFuel
-                   end
-               end) es s off []
-        | Alt es =>
-            (fix alt (es : list expr) : res :=
-               match es with
-               | [] => Fail
-               | e1 :: r =>
-                   match run f e1 s off with
-                   | Fail => alt r
-                   | x => x
-                   end
-               end) es
+        | Seq es labels => seq_loop (run f) off labels es s off []
+        | Alt es => alt_loop (fun e1 => run f e1 s off) es
         | Opt e1 =>
             match run f e1 s off with
             | Fail => Ok s off (leaf off 0)
             | x => x
             end
-        | Star e1 => rep f e1 s off 0%nat
-        | Plus e1 => rep f e1 s off 1%nat
+        | Star e1 => rep_loop (run f e1) off 0%nat (S (length s)) s off []
+        | Plus e1 => rep_loop (run f e1) off 1%nat (S (length s)) s off []
         | And e1 =>
             match run f e1 s off with
             | Ok _ _ _ => Ok s off (leaf off 0)
@@ -94,26 +110,6 @@ Section Run.
             | x => x
             end
         end
-    end
-  (* e* / e+ : iterate until e fails; an iteration that consumes nothing would loop forever in
-     canopy, here it runs out of fuel *)
-  with rep (fuel : nat) (e : expr) (s : str) (off : N) (min : nat) {struct fuel} : res :=
-    match fuel with
-    | O => OutOfFuel
-    | S f =>
-        (fix loop (k : nat) (s1 : str) (off1 : N) (acc : list tree) : res :=
-           match k with
-           | O => OutOfFuel
-           | S k' =>
-               match run f e s1 off1 with
-               | Ok s2 off2 t => loop k' s2 off2 (t :: acc)
-               | Fail =>
-                   if Nat.leb min (length acc)
-                   then Ok s1 off1 (Node off (off1 - off) [] [] (rev acc))
-                   else Fail
-               | OutOfFuel => OutOfFuel
-               end
-           end) (S (length s)) s off []
     end.
 End Run.
 
